@@ -14,8 +14,10 @@ Python value specs: {"t":"int","v":"-12"} {"t":"bool","v":1} {"t":"dec","s":0,"c
 
 Observations (compared with the compiled Lean model, see lean/RV/C09/Drive.lean): datatype chosen, *validity* of the
 lexical forms produced (spelling is a diagnostic: VERIF_C09_SPELL=1 compares it too), ill_typed, value (structurally),
-value after re-reading, normalize() once and twice, eq / term equality.  Floats, base64Binary, bytes values and
-inputs outside the declared fragment of the CPython constructors answer `unmodelled` on both sides.
+value after re-reading, normalize() once and twice, eq / term equality.  Bytes values and
+inputs outside the declared fragment of the CPython constructors answer `unmodelled` on both sides; xsd:double / xsd:float
+lex cases and Literal(float) are compared through the `flex` / `fpy` driver commands (values as sign, mantissa, binary
+exponent), float literals in the eq / eqpy / relit streams are `unmodelled`.
 
 Property oracle (`viol`, independent of Lean): XSD 1.1 lexical spaces as regular expressions written from the
 W3C productions + Python's own int / Fraction arithmetic for the values.
@@ -119,7 +121,11 @@ RULE = ("one literal (or one pair) per case: grammar-generated valid lexical for
 ASSUMPTIONS = ["CPython's int(), Decimal(), format(Decimal,'f'), date/time/datetime.fromisoformat and isoformat behave "
                "as their documented grammar on the declared fragment (printable ASCII + ASCII white space; no ISO week "
                "dates; time/dateTime of the XSD shape) — exercised by this run",
-               "float/double: IEEE rounding and repr are outside the Lean model (consistency checked here only)",
+               "float(str) is the correctly rounded (round-half-even, binary64) conversion of the decimal numeral and repr(float) the "
+               "shortest digit string that reads back, closest first (the Lean model computes both with exact integers) — every "
+               "xsd:double / xsd:float lex case and every Literal(float) case of this run is compared bit for bit",
+               "base64.b64decode is binascii.a2b_base64 in non-strict mode (characters outside the alphabet skipped, pad counting "
+               "as in CPython 3.12) — exercised by this run",
                "non-finite Decimals, ints beyond CPython's 4300-digit str() limit and Durations with fractional or "
                "mixed-sign parts have no XSD counterpart and are outside the quantifier"]
 TRUSTED = ["harness/c09.py generators, XSD regular expressions and canonicalisation", "harness/c09_tables.py table extraction",
@@ -135,9 +141,10 @@ INT_BOUNDS = {  # XSD 1.1 Part 2 §3.4 (written from the spec, not from rdflib)
 STRINGY = ["string", "normalizedString", "token", "language", "anyURI"]
 DATEY = ["date", "time", "dateTime"]
 DURS = ["duration", "dayTimeDuration", "yearMonthDuration"]
-MODELLED = list(INT_BOUNDS) + ["decimal", "boolean"] + STRINGY + DATEY + DURS + ["hexBinary"]
-UNMODELLED_DT = ["float", "double", "base64Binary"]
-ALL_DT = MODELLED + UNMODELLED_DT
+MODELLED = list(INT_BOUNDS) + ["decimal", "boolean"] + STRINGY + DATEY + DURS + ["hexBinary", "base64Binary"]
+UNMODELLED_DT = []
+FLOATY = ["float", "double"]     # modelled apart from the other datatypes (RV/C09/FloatModel.lean): lex and py streams only
+ALL_DT = MODELLED + FLOATY + UNMODELLED_DT
 NUMERIC = set(INT_BOUNDS) | {"decimal", "float", "double"}
 
 # ------------------------------------------------------------------ XSD 1.1 lexical spaces (oracle)
@@ -159,8 +166,10 @@ RE = {
     "dayTimeDuration": re.compile(rf"-?P{_DUDAYTIME}"),
     "yearMonthDuration": re.compile(rf"-?P{_DUYM}"),
     "hexBinary": re.compile(r"(?:[0-9a-fA-F]{2})*"),
-    "base64Binary": re.compile(r"(?:(?:[A-Za-z0-9+/] ?){4})*(?:(?:[A-Za-z0-9+/] ?){2}[AEIMQUYcgkosw048] ?=|"
-                               r"[A-Za-z0-9+/] ?[AQgw] ?= ?=)?"),
+    # XSD 1.1 §3.3.16.2: (B64quad* B64final)? with B64 ::= B64char #x20? and B64finalquad ::= B64 B64 B64 B64char
+    # (a single space may follow every character except the last one)
+    "base64Binary": re.compile(r"(?:(?:(?:[A-Za-z0-9+/] ?){4})*(?:(?:[A-Za-z0-9+/] ?){3}[A-Za-z0-9+/]|"
+                               r"(?:[A-Za-z0-9+/] ?){2}[AEIMQUYcgkosw048] ?=|[A-Za-z0-9+/] ?[AQgw] ?= ?=))?"),
     "double": re.compile(r"(?:\+|-)?(?:[0-9]+(?:\.[0-9]*)?|\.[0-9]+)(?:[Ee](?:\+|-)?[0-9]+)?|(?:\+|-)?INF|NaN"),
     "language": re.compile(r"[a-zA-Z]{1,8}(?:-[a-zA-Z0-9]{1,8})*"),
     "durfields": re.compile(r"(-?)P(?:([0-9]+)Y)?(?:([0-9]+)M)?(?:([0-9]+)D)?(?:T(?:([0-9]+)H)?(?:([0-9]+)M)?(?:([0-9]+)(?:\.([0-9]+))?S)?)?"),
@@ -415,8 +424,24 @@ def canon(v):
             return "dur:fractional"
         return f"dur:{int(v.years)}:{int(v.months)}:{(td.days * 86400 + td.seconds) * 10 ** 6 + td.microseconds}"
     if type(v) is float:
-        return "float"
+        return canon_float(v)
     return "other:" + type(v).__name__
+
+
+def canon_float(x):
+    """nan | inf | -inf | f:<neg>:<m>:<e> (the double is ±m·2^e, m < 2^53, e >= -1074) — exact, no float crosses the protocol"""
+    if x != x:
+        return "nan"
+    if x in (math.inf, -math.inf):
+        return "inf" if x > 0 else "-inf"
+    neg = int(math.copysign(1.0, x) < 0)
+    if x == 0:
+        return f"f:{neg}:0:0"
+    m, e = math.frexp(abs(x))
+    m, e = int(m * 2 ** 53), e - 53
+    while e < -1074:
+        m, e = m // 2, e + 1
+    return f"f:{neg}:{m}:{e}"
 
 
 def ill(x):
@@ -446,6 +471,9 @@ _PERIOD = re.compile(r"^(?P<sign>[+-])?P(?!\b)(?P<years>[0-9]+([,.][0-9]+)?Y)?(?
 def in_fragment(dt, s):
     if not all(9 <= ord(c) <= 13 or 32 <= ord(c) <= 126 for c in s):
         return False
+    if dt in FLOATY:
+        m = re.search("[eE]", s)
+        return len(s[m.start():] if m else "") <= 6
     if dt == "decimal":
         t = s.strip(_WS).replace("_", "")
         if t[:1] in ("+", "-"):
@@ -515,7 +543,7 @@ def py_modelled(spec):
     if t == "bytes":
         return False
     if t == "float":
-        return spec["hex"] in ("inf", "-inf", "nan") and False   # floats never cross the protocol
+        return True      # as nan | inf | -inf | sign, mantissa, binary exponent (exact integers)
     if t == "str":
         return True
     return True
@@ -539,6 +567,9 @@ def py_model_words(spec):
         return f"td {spec['us']}"
     if t == "dur":
         return f"dur {spec['y']} {spec['m']} {spec['us']}"
+    if t == "float":
+        c = canon_float(_py_value(spec))
+        return "fpy " + (c if ":" not in c else " ".join(c.split(":")[1:]))
     raise KeyError(t)
 
 
@@ -591,7 +622,7 @@ def _lit_modelled(litspec):
     if litspec.get("lang"):
         return False      # language tags are outside the Lean model
     if "v" in litspec:
-        return py_modelled(litspec["v"])
+        return py_modelled(litspec["v"]) and litspec["v"]["t"] != "float"   # float literals: lex / py streams only
     dt = litspec["dt"]
     s = "".join(chr(c) for c in litspec["cps"])
     return (dt is None or dt in MODELLED) and in_fragment(dt, s)
@@ -604,7 +635,7 @@ def run_lex(case):
     px = xsd_parse(dt, s)
     valid = px is not None
     stats["lex_valid" if valid else "lex_invalid"] = 1
-    modelled = dt in MODELLED and in_fragment(dt, s)
+    modelled = (dt in MODELLED or dt in FLOATY) and in_fragment(dt, s)
     arg = s.encode("utf-8", "surrogatepass") if case.get("bytes") else (MyStr(s) if case.get("strsub") else s)
     if case.get("bytes"):
         stats["lex_as_bytes"] = 1
@@ -640,8 +671,9 @@ def run_lex(case):
         if valid:
             viol.append(f"raise: Literal({s!r}, datatype=xsd:{dt}) / normalize() raises {raised} on a valid lexical form")
     else:
+        r_b1, e_b1 = _eqres(l1, b1)
         line = (f"lex|{ill(l0)}|{canon(l0.value)}|{int(valid_for(dt, str(l1)))}|{canon(b1.value)}|{int(str(n1) == str(l1))}"
-                f"|{int(str(n2) == str(n1))}|{ill(l1)}|{canon(l1.value)}")
+                f"|{int(str(n2) == str(n1))}|{ill(l1)}|{canon(l1.value)}|{e_b1}")
         if SPELL:
             line += "|" + "|".join(cps_str(str(x)) for x in (l0, l1, n1, n2))
         obs = [line]
@@ -666,6 +698,10 @@ def run_lex(case):
                 viol.append(f"norm-idem: normalising the normalised form {str(n1)!r} of {s!r}^^xsd:{dt} changes it again")
         if reuse_bad:
             viol.append("reuse: " + reuse_bad)
+        # value-space equality holds whenever term equality does: the (normalised) literal and the literal built
+        # from its own lexical form are the same term
+        if valid and l1 == b1 and r_b1 is not True:
+            viol.append(f"eq-term: {l1!r} == {b1!r} (the literal built from its own lexical form) but .eq() gives {e_b1}")
     if not modelled:
         obs = ["unmodelled"]
         stats["unmodelled"] = 1
@@ -1131,6 +1167,8 @@ def model_lines(case):
     if k in ("xml", "bind"):
         return pre + ["skip"]
     if k == "lex":
+        if case["dt"] in FLOATY:
+            return pre + [f"flex {case['dt']} " + cps_str("".join(chr(c) for c in case["cps"])) + " " + case.get("nmode", "d")]
         if case["dt"] not in MODELLED:
             return pre + ["skip"]
         return pre + [f"lex {case['dt']} " + cps_str("".join(chr(c) for c in case["cps"])) + " " + case.get("nmode", "d")]
@@ -1140,6 +1178,8 @@ def model_lines(case):
             return pre + ["skip"]
         if sp.get("dt"):
             return pre + [f"pyd {sp['dt']} " + py_model_words(sp)]
+        if sp["t"] == "float":
+            return pre + [py_model_words(sp)]
         return pre + ["py " + py_model_words(sp)]
     if k == "eqpy":
         if not (_lit_modelled(case["a"]) and py_modelled(case["v"])) or case["v"]["t"] == "float":
@@ -1373,6 +1413,22 @@ def mutate(rng, dt, s):
             return str(rng.choice(c))
     if r < 0.4:
         return rng.choice([" ", "\t", "\n", ""]) + s + rng.choice([" ", "\n", "", ""])
+    if dt == "base64Binary" and r < 0.7:
+        # padding / alphabet / white-space shapes of binascii.a2b_base64 (non-strict)
+        q = rng.random()
+        if q < 0.25:
+            return rng.choice(["=", "==", "Y", "YQ", "YQ=", "YQ===", "YWI", "YWI==", "YQ=a=", "YQ=YQ==", "=YQ==", "Y=Q==", "YW=Jj", "YWJj=",
+                               "YWJj====", "YQ = =", "YQ= =", "YQ ==", " YQ==", "YQ== ", "YQ==\n", "Y Q = =", "YWJj ", "YW  Jj", "YWJjZA", "YR==",
+                               "YWJ=", "YWI=", "YWJj\nZGVm", "YWJj-_", "YWJj.ZA==", "YQ==YWJj", "YWJjYQ==YWJj", "Y===", "Y=Q=", "YQ=\t="])
+        i = rng.randrange(len(s) + 1)
+        if q < 0.5:
+            return s[:i] + rng.choice(["=", "=", " ", "  ", "\n", "-", "_", "A", "Q", "/", "+"]) + s[i:]
+        if q < 0.7:
+            return s.rstrip("=") + "=" * rng.choice([0, 0, 1, 2, 3])
+        if q < 0.85 and s:
+            i = min(i, len(s) - 1)
+            return s[:i] + rng.choice(B64 + "=") + s[i + 1:]
+        return " ".join(s) if q < 0.93 else s.replace("=", " =")
     if not s:
         return rng.choice(_MUT)
     i = rng.randrange(len(s))
@@ -1489,6 +1545,9 @@ def _lit_for_eq(rng, fam):
     if fam == "hexBinary":
         s = rng.choice(["", "0fb7", "0FB7", "0Fb7", "00", "3132", "0f", "0"])
         return {"dt": "hexBinary", "cps": [ord(c) for c in s], "norm": rng.random() < 0.5}
+    if fam == "base64Binary":
+        s = rng.choice(["", "YQ==", "Y Q==", "YQ= =", "YR==", "YWI=", "YWJj", "YW Jj", "YWJjZA==", "YQ", "YQ=YQ==", "MTI="])
+        return {"dt": "base64Binary", "cps": [ord(c) for c in s], "norm": rng.random() < 0.5}
     if fam == "float":
         return rng.choice([{"v": {"t": "float", "hex": rng.choice(["nan", "inf", "-inf", (1.0).hex(), (0.0).hex(), (-0.0).hex()])}},
                            {"dt": rng.choice(["double", "float"]), "cps": [ord(c) for c in rng.choice(["NaN", "INF", "1", "1.0", "1e0", "0", "-0"])], "norm": rng.random() < 0.5}])
@@ -1525,7 +1584,8 @@ def gen_relit(rng):
             old["lang"] = rng.choice(["en", "EN", "fr-BE"])
         return {"kind": "relit", "old": old, "dt": None, **({"lang": rng.choice(["en", "de"])} if rng.random() < 0.5 else {})}
     # a typed literal re-typed within / across families
-    fams = [list(INT_BOUNDS) + ["decimal"], ["string", "normalizedString", "token", "language", "anyURI"], DURS, DATEY, ["hexBinary", "string"]]
+    fams = [list(INT_BOUNDS) + ["decimal"], ["string", "normalizedString", "token", "language", "anyURI"], DURS, DATEY, ["hexBinary", "string"],
+            ["base64Binary", "string", "hexBinary"]]
     fam = rng.choice(fams)
     d1, d2 = rng.choice(fam), rng.choice(fam)
     s = gen_valid(rng, d1) if rng.random() < 0.85 else mutate(rng, d1, gen_valid(rng, d1))
@@ -1536,7 +1596,7 @@ def gen_relit(rng):
 
 
 _EQPY_FAMS = ["numeric", "numeric", "numeric", "string", "boolean", "duration", "dayTimeDuration", "yearMonthDuration",
-              "date", "time", "dateTime", "hexBinary", "float", "token"]
+              "date", "time", "dateTime", "hexBinary", "base64Binary", "float", "token"]
 
 
 def gen_eqpy(rng):
@@ -1641,7 +1701,7 @@ def gen_case(rng, tier, i):
     if r < 0.95:
         return gen_eqpy(rng)
     fam = rng.choice(["numeric", "numeric", "numeric", "string", "boolean", "duration", "dayTimeDuration", "date", "time", "dateTime", "hexBinary",
-                      "float", "token", "normalizedString"])
+                      "base64Binary", "float", "token", "normalizedString"])
     a = _lit_for_eq(rng, fam)
     q = rng.random()
     if q < 0.2:
@@ -1776,10 +1836,12 @@ def _m_bytes(case, result):
 
 def _m_nan_eq(case, result):
     """NaN: term-equal literals whose values are not equal to themselves"""
-    if case.get("kind") not in ("eq", "relit") or _tags(result) != {"eq-term"}:
+    if case.get("kind") not in ("eq", "relit", "lex") or _tags(result) != {"eq-term"}:
         return False
     try:
-        if case["kind"] == "relit":
+        if case["kind"] == "lex":      # a NaN literal against the literal built from its own lexical form
+            a = b = _mk({"dt": case["dt"], "cps": case["cps"], "norm": True})
+        elif case["kind"] == "relit":
             oldl, _dt, kw = _relit_parts(case)
             a = b = Literal(oldl, **kw)
         else:
